@@ -64,7 +64,13 @@ def _fmath(fn, cfn, z):
     z = Cx.of(z)
     try:
         if z.im == 0:
-            return Cx.of(fn(float(z.re)))
+            try:
+                return Cx.of(fn(float(z.re)))
+            except ValueError:
+                # outside the real domain (ln of a negative number, acos(2), ...): principal branch,
+                # so that e.g. 0 * ln(f) in an expanded derivative is 0 and not undefined
+                if cfn is None:
+                    raise
         w = cfn(complex(z))
         return Cx(w.real, w.imag)
     except (ValueError, OverflowError, ZeroDivisionError) as e:
